@@ -424,6 +424,34 @@ func prop(c Case) error {
 	if !bytes.Equal(re, reKept) {
 		return fmt.Errorf("the re-encoding returned by Marshal changed when other geometries were marshalled afterwards:\n now % x\n was % x", re, reKept)
 	}
+	// the decoded geometry is the caller's: it stays what it is while a sibling (same
+	// structure, EMPTY where it is EMPTY, other ordinates and SRIDs) is decoded
+	if mg, err := model.FromGeom(g); err == nil {
+		sib := mg.Mapped(func(x float64) float64 { return 2*x + 1 })
+		var bump func(m *model.G)
+		bump = func(m *model.G) {
+			m.SRID += 1000
+			for i := range m.Members {
+				bump(&m.Members[i])
+			}
+		}
+		bump(sib)
+		if st, err := model.Build(sib, model.RouteFlat); err == nil {
+			if sb, err := d.marshal(st, bo); err == nil {
+				for i := 0; i < 2; i++ {
+					_, _ = d.unmarshal(sb)
+					_, _ = d.hexDec(hex.EncodeToString(sb))
+				}
+			}
+		}
+		now, err := model.FromGeom(g)
+		if err != nil {
+			return fmt.Errorf("the decoded geometry, looked at again after a sibling was decoded: %v", err)
+		}
+		if df := model.Diff(mg, now, true); df != "" {
+			return fmt.Errorf("the decoded geometry changed when a sibling was decoded afterwards: %s", df)
+		}
+	}
 	// the re-encoding may hold more elements per level than the (drawn) limits only
 	// if the input did: decode it under the same limits
 	g2, err := d.unmarshal(re)
